@@ -2,13 +2,15 @@
 from lib import hexs
 
 MODULE = "DtailModel.Props.C16"
+# translated packages (tie G) this property's theorems rest on
+GEN_UNITS = ("Brush",)
 GROUPS = ["C16", "C15"]
 ENV = {"VERIF_LOGLEVEL": "none"}   # the handlers' own error logging is not part of the observation
 BUDGET = {"quick": 5000, "thorough": 120000}
 LEVEL_TEXT = ("Lean theorems for every message and every colour table: C16_lossless (rendering minus escape codes = "
               "message), C16_colorfy_no_panic (Go's slice indexing made explicit never goes out of range), "
               "C16_mapr_first_no_panic; tied to the code by the regenerated default colour table and a differential "
-              "run of the real brush.Colorfy and the three client handlers' Write; c16.table: the result table a mapreduce client prints (GroupSet.Result) with non-ASCII, wide, long, empty and hostile values, colours off and on")
+              "run of the real brush.Colorfy and the three client handlers' Write; c16.table: the result table a mapreduce client prints (GroupSet.Result) with non-ASCII, wide, long, empty and hostile values, colours off and on; tie G (panic-aware): C16_generated_colorfy_lossless — Colorfy / paintRemote / paintClient / paintServer / paintSeverity / paintDefault of internal/color/brush/brush.go as translated from the working tree never index out of range and never alter text, for every line and every way of painting whose paint can be removed again (Lemmas/GenBrush.lean); c16.colorfy evaluates the translated Colorfy beside the model")
 TRUSTED = ["Lean 4 kernel", "axioms: propext, Quot.sound, Classical.choice (at most)", "fact extractor (colour constants, default colour table)",
            "overlay harness + dtmodel driver + this diff",
            "escape codes are removed at the level of rendered segments in the theorem; that a byte-level SGR stripper agrees is checked "
@@ -77,6 +79,17 @@ def gen_table(rng, n):
 def gen(rng, budget, tier):
     yield from _gen_c16(rng, budget, tier)
     yield from gen_table(rng, 60 if tier == "quick" else 3000)
+    # well-formed AGGREGATE records for the mapreduce handler's query, with every kind of numeric text a server's
+    # strconv.ParseFloat-accepted field can carry (finite, huge, NaN, infinities) and garbage (added last)
+    vals = [b"1", b"42", b"0", b"-3", b"1e3", b"NaN", b"nan", b"Inf", b"+Inf", b"-Inf", b"infinity", b"-Infinity", b"1e999", b"x", b""]
+    for _ in range(60 if tier == "quick" else 3000):
+        stream = b""
+        for _ in range(rng.choice([1, 2, 3, 5])):
+            grp = rng.choice([b"web1", b"a", b"", b"y z"])
+            rec = b"AGGREGATE|srv1|" + grp + "∥".encode() + rng.choice([b"1", b"3", b"0", b"x"]) + "∥".encode() \
+                + b"count(x)" + "≔".encode() + rng.choice(vals) + "∥".encode()
+            stream += rec + b"\xac"
+        yield f"c16.write mapr {rng.randrange(2)} {rng.choice([1, 7, 4096])} {hexs(stream)}"
     # several servers' lines coloured at the same time, one goroutine per connection (added last)
     yield "c16.race 8 60000"
     yield "c16.race 12 20000"
